@@ -360,6 +360,9 @@ def replay_entry(mod, check_name: Optional[str], case, known=()):
     """Run a stored case through its check with the given known-exclusions active.
     Returns None if it passes, else the PropertyViolation."""
     checks = mod.CHECKS
+    if check_name and ":" in check_name:  # "C02:edits" - the reproducer is a case of another property's check
+        other, check_name = check_name.split(":", 1)
+        checks = load_module(other).CHECKS
     fn = checks[check_name] if check_name else next(iter(checks.values()))
     ctx = ShardCtx(mod.PROPERTY_ID, "quick", 0, 0, 1, "replay", {}, list(known), 1e9)
     try:
@@ -386,7 +389,7 @@ def run_check(prop: str, tier: str, seed: int) -> int:
             continue
         path = os.path.join(ROOT, e.repro)
         data = json.load(open(path))
-        v = replay_entry(mod, data.get("check") or e.check, data["case"], known=())
+        v = replay_entry(mod, e.check or data.get("check"), data["case"], known=())
         if e.kind == "known":
             if v is not None:
                 known_lines.append(f"KNOWN-FINDING: property={prop} sig={e.sig} {e.text}")
